@@ -2,7 +2,7 @@
 // expose valid, faithful series).
 //
 // One case is a whole registry: exporter options, the process-global
-// model.NameValidationScheme, a resource, 1..2 scopes, 1..6 instruments of
+// model.NameValidationScheme, a resource, 1..3 scopes (names may repeat; attributes from a pool with the reserved labels otel_scope_name/version, keys sanitising to them, ordinary and mutually colliding keys), 1..6 instruments of
 // every kind with names from a grammar over the API alphabet (biased to
 // "total" and unit words in every position), units, descriptions, ONE
 // attribute key set per instrument (keys that collide after sanitisation),
@@ -81,6 +81,22 @@
 // series was missing from the scrape. Regression replay:
 // replays/regress/C18/exp_histogram_scale_above_8.json.
 //
+//   - instrumentation scopes: 1..3, names may repeat (versions / attributes
+//     then differ); scope attributes from a pool with the exporter's reserved
+//     label names otel_scope_name / otel_scope_version (exact, and keys that
+//     sanitise to them), ordinary keys and keys that collide with each other.
+//     Reference for the otel_scope_info series of a scope in use: the scope's
+//     attributes as a SET in which the reserved keys hold the real name and
+//     version (an attribute with exactly a reserved key cannot replace them),
+//     translated by the general label rule; every instrument series carries
+//     the real name and version. Consequence of the general rule, not asserted
+//     otherwise: under the legacy scheme an attribute such as otel.scope.name
+//     sanitises to the reserved label and is MERGED with the real name
+//     ("sc;shadow") like any other collision - that is what the unchanged tree
+//     does (reported as an observation: the info series then no longer joins
+//     with otel_scope_name on the data points). Two scopes whose info series
+//     would get the same label set are a registry Prometheus rejects by
+//     design (weak treatment).
 //   - a scrape of an exporter that no MeterProvider knows (Case.Early: the
 //     registry is scraped before NewMeterProvider(WithReader(exporter));
 //     Case.Ghost: a second exporter with its own registry that is never
@@ -122,7 +138,7 @@ import (
 func TestScrapeModel(t *testing.T) {
 	vk.Run(t, vk.Spec[Case]{
 		Property: "C18", Check: "scrape_model",
-		Rule: "a registry: exporter options x {UTF-8, legacy} scheme, resource, 1..2 scopes, 1..6 instruments (14 kinds; histograms explicit-bucket or base-2 exponential with MaxSize {160,20,4} x MaxScale {20,3,0,-2} and positive/negative/zero values) with grammar names biased to total/unit words, all table units + unknown ones, one (often colliding) key set with 1..5 tuples, exact measurements (some in sampled span contexts, with a View-filtered attribute that becomes the exemplar's, short or over-long), optionally a scrape before the exporter is registered and a second never-registered exporter scraped in between, 1..3 sequential scrapes each compared with a ManualReader on the same provider; " +
+		Rule: "a registry: exporter options x {UTF-8, legacy} scheme, resource, 1..3 scopes (names may repeat; attributes from a pool with the reserved labels otel_scope_name/version, keys sanitising to them, ordinary and mutually colliding keys), 1..6 instruments (14 kinds; histograms explicit-bucket or base-2 exponential with MaxSize {160,20,4} x MaxScale {20,3,0,-2} and positive/negative/zero values) with grammar names biased to total/unit words, all table units + unknown ones, one (often colliding) key set with 1..5 tuples, exact measurements (some in sampled span contexts, with a View-filtered attribute that becomes the exemplar's, short or over-long), optionally a scrape before the exporter is registered and a second never-registered exporter scraped in between, 1..3 sequential scrapes each compared with a ManualReader on the same provider; " +
 			"non-trivial = some instrument name contains 'total' or a unit word, or attribute keys collide after sanitisation under the legacy scheme; distinct = distinct case encodings",
 		Quick: 4000, Thorough: 40000,
 		Gen: genCase(false), Run: runSeq,
